@@ -112,6 +112,13 @@ def c06(ctx):
         d = fam_encode.run_case(ctx, case)
         if d:
             out.append(d)
+    if out and not any(d.get("property_violation") for d in out):
+        # the model no longer corresponds but no lattice point loses a statement: look, on the implementation
+        # alone, for an input / frame size / class on which statements go missing (frame cuts at graph ends,
+        # alignments of pending rows with the frame size, ...)
+        from checks import search_failing_input
+
+        out += search_failing_input(ctx, None, budget_s=45.0)
     ctx.report.exhaustive = True
     ctx.report.notes.append("exhaustive over the listed lattice; inputs are two fixed and (thorough) one random per arity")
     ctx.report.sample({"lattice": "class x logical x delimited x flow x frame_size", "accepted": n_acc, "rejected": n_rej})
@@ -382,11 +389,14 @@ def c08(ctx):
         if not results[0][0]:
             env = r.choice([b"\x01\x02\x03", b"\x0a\x05\x01", b"\x0a\x0a\x0a", b"\x0a\x0a\x01", b"\x0a", b"JELLY\n"])
             for di, delim in enumerate((True, False)):
-                for carrier in ("BytesIO", "BufferedReader", "tempfile"):
+                for carrier in ("BytesIO", "BufferedReader", "BufferedReader2", "tempfile"):
                     if carrier == "BytesIO":
                         inp = io.BytesIO(env + results[di][2])
                     elif carrier == "BufferedReader":
                         inp = io.BufferedReader(io.BytesIO(env + results[di][2]))
+                    elif carrier == "BufferedReader2":
+                        # a seekable buffered reader whose look-ahead at the start of the stream is 1-2 bytes
+                        inp = io.BufferedReader(io.BytesIO(env + results[di][2]), buffer_size=len(env) + r.choice([1, 2]))
                     else:
                         inp = tempfile.TemporaryFile()
                         inp.write(env + results[di][2])
@@ -416,6 +426,8 @@ def replay_hd(ctx, body):
             inp = io.BytesIO(env + data)
         elif body["carrier"] == "BufferedReader":
             inp = io.BufferedReader(io.BytesIO(env + data))
+        elif body["carrier"] == "BufferedReader2":
+            inp = io.BufferedReader(io.BytesIO(env + data), buffer_size=len(env) + body.get("lookahead", 1))
         else:
             inp = tempfile.TemporaryFile()
             inp.write(env + data)
@@ -617,7 +629,21 @@ def c10(ctx):
                 ctx.report.evaluations += 1
                 if k not in bounds and k > 0:
                     ctx.report.nontrivial.add((si, k, ig))
-                e, evs, errn = fam_parse.impl_flat(ig, data[:k])
+                # the delivered part arrives through different kinds of sources: in memory, a real file
+                # (a BufferedReader: read(n) may come back short only at the end), a non-seekable source
+                # that dribbles
+                carrier = (k + si) % 4
+                if carrier == 2:
+                    tf = tempfile.TemporaryFile()
+                    tf.write(data[:k])
+                    tf.seek(0)
+                    e, evs, errn = fam_parse.impl_flat(ig, data[:k], src=tf)
+                    tf.close()
+                elif carrier == 3:
+                    e, evs, errn = fam_parse.impl_flat(ig, data[:k], src=Dribble(data[:k], [r.choice([1, 2, 3, 7, 64]) for _ in range(6)] + [10 ** 6]))
+                else:
+                    e, evs, errn = fam_parse.impl_flat(ig, data[:k])
+                ctx.report.count(f"C10/carrier={('BytesIO', 'BytesIO', 'file', 'non-seekable')[carrier]}")
                 pre, mend, mframes = core.parse_pa_reply(next(replies))
                 mevs = fam_parse.model_flat_events(mframes)
                 same = (e, evs) == (mend, mevs)
